@@ -135,9 +135,17 @@ type tcpResponder struct {
 }
 
 func newTCPResponder(ip string, script func(req []byte) []step) *tcpResponder {
-	ln, err := net.Listen("tcp4", ip+":0")
+	r, err := newTCPResponderAt(ip, 0, script)
 	if err != nil {
 		panic(err)
+	}
+	return r
+}
+
+func newTCPResponderAt(ip string, port int, script func(req []byte) []step) (*tcpResponder, error) {
+	ln, err := net.Listen("tcp4", fmt.Sprintf("%s:%d", ip, port))
+	if err != nil {
+		return nil, err
 	}
 	r := &tcpResponder{ln: ln, script: script}
 	go func() {
@@ -179,7 +187,7 @@ func newTCPResponder(ip string, script func(req []byte) []step) *tcpResponder {
 			}(conn)
 		}
 	}()
-	return r
+	return r, nil
 }
 
 func (r *tcpResponder) port() int    { return r.ln.Addr().(*net.TCPAddr).Port }
@@ -290,6 +298,8 @@ func newRealClient(cfg clientCfg, serial uint32, endpoint string) uhppote.IUHPPO
 	switch cfg.path {
 	case "broadcast":
 		broadcast = types.BroadcastAddrFrom(ap.Addr(), ap.Port())
+	case "any": // a documented protocol name that means "not tcp"; built the way NewDevice builds a controller
+		devices = append(devices, uhppote.NewDevice("any", serial, types.ControllerAddrFrom(ap.Addr(), ap.Port()), "any", []string{}, nil))
 	default:
 		devices = append(devices, uhppote.Device{DeviceID: serial, Address: types.ControllerAddrFrom(ap.Addr(), ap.Port()), Protocol: cfg.path})
 	}
